@@ -58,6 +58,9 @@ f_arctan2 = z3.Function('arctan2', R, R, R)
 f_round = z3.Function('round', R, R)
 f_pow = z3.Function('pow', R, R, R)
 f_vdot = z3.Function('vdot', R, R, R)
+f_dot = z3.Function('dot', R, R, R)                  # jnp.dot of two (flattened) arrays: no conjugation
+f_conj = z3.Function('conj', R, R)
+f_iscomplex = z3.Function('iscomplex', R, z3.BoolSort())
 f_getitem = z3.Function('getitem', R, R, R)
 f_ang2pix = z3.Function('ang2pix', R, R, R, R)
 f_pix2idx = z3.Function('pixel2index', R, R)
@@ -715,6 +718,21 @@ def install(T: Theory):
         T.externals[f'{mod}.arctan2'] = elementwise(f_arctan2, 'arctan2')
         T.externals[f'{mod}.round'] = elementwise(f_round, 'round')
     T.externals['jax.numpy.vdot'] = elementwise(f_vdot, 'vdot')
+
+    # vdot spelled out: vdot(a, b) = dot(conj(ravel a), ravel b); conj is the identity on real arrays.  The two facts are
+    # given as instances at the call of jnp.dot (no quantified axiom needed)
+    def _dot(interp, a, b):
+        ta, tb = term_of(a), term_of(b)
+        if z3.is_app(ta) and ta.decl().eq(f_conj):
+            interp.run.assume(f_dot(ta, tb) == f_vdot(ta.arg(0), tb))
+        else:
+            interp.run.assume(z3.Implies(z3.Not(f_iscomplex(ta)), f_dot(ta, tb) == f_vdot(ta, tb)))
+        return elementwise(f_dot, 'dot')(interp, a, b)
+    T.externals['jax.numpy.dot'] = _dot
+    T.externals['jax.numpy.conj'] = elementwise(f_conj, 'conj')
+    T.externals['jax.numpy.conjugate'] = elementwise(f_conj, 'conj')
+    T.externals['jax.numpy.iscomplexobj'] = lambda interp, x: f_iscomplex(term_of(x))
+    T.externals['jax.numpy.ravel'] = lambda interp, x: interp.call(interp.getattr(x, 'ravel'), [], {}) if isinstance(x, ArrV) else x
     # piecewise element-wise functions (exact over the reals) and the constant pi (an uninterpreted real constant)
     PI = z3.Real('pi')
     for mod in ('jax.numpy', 'numpy', 'math'):
